@@ -1,7 +1,7 @@
 (** Extraction of the proof-term / interpreter model (PTerm) for the C08 and C02 correspondence checks.
     Directives: [ExtrOcamlBasic] only.  N/positive/nat stay Coq inductives. *)
 From Coq Require Import Extraction ExtrOcamlBasic.
-From Pi2 Require Import ML.Syntax ML.Subst ML.Machine PTerm.Model PTerm.Facts PTerm.Compile.
+From Pi2 Require Import ML.Syntax ML.Subst ML.Machine PTerm.Model.
 Extraction Language OCaml.
 Extraction "pterm_model.ml" static_conc run_basic stack_calls st_run ser_run pretty_run count_run run compile
   serialize count_module verify guards_sound guards_pinned py_inst py_esubst py_ssubst pat_eqb
